@@ -383,9 +383,13 @@ theorem projLoop_spec (env : String → Val) (nm : Names) (s : Schema) (ent : Na
     | sub _ _ _ _ => simp [selOk] at hsel
 
 /-- the key of a scalar selection is found in the projection (keys are distinct) -/
+theorem isScalarSel_iff (name : String) (fld : Nat) (sel : Sel) :
+    isScalarSel name fld sel = true ↔ sel = .scalar name fld := by
+  cases sel <;> simp [isScalarSel]
+
 theorem assoc_projSpec (s : Schema) (r : Row) (name : String) (fld : Nat) :
     ∀ sels : List Sel, distinctKeys (sels.map Sel.key) = true →
-      (sels.any fun sel => match sel with | .scalar k f => k == name && f == fld | _ => false) = true →
+      sels.any (isScalarSel name fld) = true →
       assoc name (sels.map (projSpec s r)) = some (projSpec s r (.scalar name fld)).2 := by
   intro sels
   induction sels with
@@ -395,39 +399,888 @@ theorem assoc_projSpec (s : Schema) (r : Row) (name : String) (fld : Nat) :
     simp only [List.map_cons, distinctKeys, Bool.and_eq_true, Bool.not_eq_eq_eq_not, Bool.not_true] at hd
     obtain ⟨hnot, hdr⟩ := hd
     simp only [List.any_cons, Bool.or_eq_true] at ha
-    have hkey : ∀ x ∈ rest, (match x with | Sel.scalar k f => k == name && f == fld | _ => false) = true →
-        Sel.key x = name := by
-      intro x _ hx
-      cases x <;> simp_all [Sel.key]
     by_cases hk : Sel.key sel = name
     · -- the head has the key: it is the selection looked for
-      have hhead : (match sel with | Sel.scalar k f => k == name && f == fld | _ => false) = true := by
+      have hhead : sel = .scalar name fld := by
         rcases ha with ha | ha
-        · exact ha
+        · exact (isScalarSel_iff name fld sel).mp ha
         · exfalso
           obtain ⟨x, hx, hxm⟩ := List.any_eq_true.mp ha
-          have : name ∈ rest.map Sel.key := List.mem_map.mpr ⟨x, hx, hkey x hx hxm⟩
+          have hxe := (isScalarSel_iff name fld x).mp hxm
+          have : name ∈ rest.map Sel.key := List.mem_map.mpr ⟨x, hx, by rw [hxe]; rfl⟩
           rw [← hk] at this
           have hc : (rest.map Sel.key).contains (Sel.key sel) = true := List.contains_iff_mem.mpr this
           rw [hc] at hnot; exact absurd hnot (by simp)
-      cases sel with
-      | scalar k f =>
-        simp only [Bool.and_eq_true, beq_iff_eq] at hhead
-        obtain ⟨h1, h2⟩ := hhead
-        subst h1; subst h2
-        simp [assoc, projSpec]
-      | _ => simp at hhead
-    · have hne : (projSpec s r sel).1 ≠ name := by rw [projSpec_key]; exact hk
-      have hrest : (rest.any fun sel => match sel with | .scalar k f => k == name && f == fld | _ => false) = true := by
+      subst hhead
+      simp [assoc, projSpec]
+    · have hrest : rest.any (isScalarSel name fld) = true := by
         rcases ha with ha | ha
         · exfalso
-          cases sel <;> simp_all [Sel.key]
+          rw [(isScalarSel_iff name fld sel).mp ha] at hk
+          exact hk rfl
         · exact ha
-      have := ih hdr hrest
-      rw [← this]
-      cases hp : projSpec s r sel with
-      | mk a b =>
-        have : a ≠ name := by rw [hp] at hne; exact hne
-        simp [assoc, this]
+      rw [← ih hdr hrest, List.map_cons]
+      have hne : (projSpec s r sel).1 ≠ name := by rw [projSpec_key]; exact hk
+      show assoc name (((projSpec s r sel).1, (projSpec s r sel).2) :: _) = _
+      simp only [assoc, hne, if_false]
+
+/-! ## What a filter or an ordering reads -/
+
+/-- the value read under a name: the selected value for an alias, the stored value for a field -/
+def readX (s : Schema) (ent : Nat) (r : Row) (onAlias : Bool) (fld : Nat) : Val :=
+  if onAlias then
+    (match fieldDef s ent fld with
+     | some fd => selected D fd (r.stored fld)
+     | none => .null)
+  else (r.stored fld).getD .null
+
+theorem lhsVal_read (nm : Names) (s : Schema) (ent : Nat)
+    (hinj : ∀ a b, nm.fieldShort ent a = nm.fieldShort ent b → a = b)
+    (sels : List Sel) (hdist : distinctKeys (sels.map Sel.key) = true)
+    (r : Row) (hr : r.ent = ent) (onAlias : Bool) (name : String) (fld : Nat)
+    (hf : fieldOk s ent fld = true) (ha : (!onAlias || sels.any (isScalarSel name fld)) = true) :
+    lhsVal (encodeRow nm r) (sels.map (projSpec s r)) (if onAlias then .value name else .json (nm.fieldShort ent fld)) =
+      SqlVal.ofScalar (readX s ent r onAlias fld) := by
+  subst hr
+  obtain ⟨fd, hfd, _, _⟩ := fieldOk_def hf
+  cases onAlias with
+  | true =>
+    simp only [Bool.not_true, Bool.false_or] at ha
+    simp only [if_true, lhsVal, readX, hfd]
+    rw [assoc_projSpec s r name fld sels hdist ha]
+    simp only [projSpec, hfd, ofJ_ofVal]
+  | false =>
+    simp only [Bool.false_eq_true, if_false, lhsVal, readX]
+    rw [assoc_encode nm r hinj fld]
+    cases r.stored fld <;> rfl
+
+/-! ## Filters -/
+
+theorem filtered_some (fd : FieldDef) (y : Val) :
+    filtered fd (some y) = if y = .null then fd.dflt.getD .null else y := by
+  cases y <;> simp [filtered]
+
+theorem filtered_raw (fd : FieldDef) (raw : Option Val) : filtered fd raw = filtered fd (some (raw.getD .null)) := by
+  cases raw with
+  | none => simp [filtered]
+  | some y => rfl
+
+/-- the evaluator's filter in terms of the value read: the `null` tests, else the default-aware comparison -/
+theorem filterHolds_eq (s : Schema) (ent : Nat) (r : Row) (f : Filter) (fd : FieldDef)
+    (hfd : fieldDef s ent f.fld = some fd) :
+    filterHolds D s ent r f =
+      match f.value with
+      | .null =>
+        if f.isParam then false
+        else (match f.op with
+              | .eq => decide (readX s ent r f.onAlias f.fld = .null)
+              | .ne => decide (readX s ent r f.onAlias f.fld ≠ .null)
+              | _ => false)
+      | v => compare? f.op (if readX s ent r f.onAlias f.fld = .null then fd.dflt.getD .null
+                            else readX s ent r f.onAlias f.fld) v := by
+  unfold filterHolds
+  simp only [hfd]
+  cases hv : f.value with
+  | null =>
+    cases f.isParam <;> cases f.onAlias <;> cases f.op <;> simp [readX, hfd, D, Defects.asImplemented]
+  | bool b =>
+    cases f.onAlias
+    · simp only [Bool.false_eq_true, if_false, readX]; rw [filtered_raw, filtered_some]
+    · simp only [if_true, readX, hfd]; rw [filtered_some]
+  | int i =>
+    cases f.onAlias
+    · simp only [Bool.false_eq_true, if_false, readX]; rw [filtered_raw, filtered_some]
+    · simp only [if_true, readX, hfd]; rw [filtered_some]
+  | str t =>
+    cases f.onAlias
+    · simp only [Bool.false_eq_true, if_false, readX]; rw [filtered_raw, filtered_some]
+    · simp only [if_true, readX, hfd]; rw [filtered_some]
+
+theorem atom_true_iff (bv : Nat → SqlVal) (row : NodeRow) (value : List (String × J)) (lhs : Lhs) (rhs : Operand)
+    (op : Cmp) (x v : Val) (hl : lhsVal row value lhs = SqlVal.ofScalar x) (hr : operand bv rhs = SqlVal.ofScalar v) :
+    atom3 bv row value { lhs := lhs, op := cmpOp op, rhs := rhs } = some true ↔ compare? op x v = true := by
+  simp only [atom3, hl, hr]
+  exact cmp3_true_iff op x v
+
+theorem compare?_null_left (op : Cmp) (v : Val) : compare? op .null v = false := by simp [compare?]
+theorem compare?_null_right (op : Cmp) (x : Val) : compare? op x .null = false := by simp [compare?]
+
+/-- the `CASE WHEN default op value …` of a filter on a field with a default is the default-aware comparison -/
+theorem caseDefault_true_iff (bv : Nat → SqlVal) (row : NodeRow) (value : List (String × J)) (lhs : Lhs)
+    (d rhs : Operand) (op : Cmp) (x v dv : Val)
+    (hl : lhsVal row value lhs = SqlVal.ofScalar x) (hr : operand bv rhs = SqlVal.ofScalar v)
+    (hd : operand bv d = SqlVal.ofScalar dv) :
+    cond3 bv row value (.caseDefault d { lhs := lhs, op := cmpOp op, rhs := rhs }) = some true ↔
+      compare? op (if x = .null then dv else x) v = true := by
+  simp only [cond3, atom3, hl, hr, hd]
+  have hisnull : cmp3 .is (SqlVal.ofScalar x) .null = some (decide (x = .null)) := by
+    simp only [cmp3]
+    congr 1
+    exact decide_eq_decide.mpr (ofScalar_null_iff x)
+  rw [hisnull]
+  by_cases hc : compare? op dv v = true
+  · rw [if_pos ((cmp3_true_iff op dv v).mpr hc)]
+    by_cases hx : x = .null
+    · subst hx
+      simp only [if_true, decide_true, hc]
+      cases cmp3 (cmpOp op) (SqlVal.ofScalar Val.null) (SqlVal.ofScalar v) with
+      | none => simp [or3]
+      | some b => cases b <;> simp [or3]
+    · simp only [hx, if_false, decide_false]
+      rw [← cmp3_true_iff]
+      cases cmp3 (cmpOp op) (SqlVal.ofScalar x) (SqlVal.ofScalar v) with
+      | none => simp [or3]
+      | some b => cases b <;> simp [or3]
+  · rw [if_neg (fun h => hc ((cmp3_true_iff op dv v).mp h)), cmp3_true_iff]
+    by_cases hx : x = .null
+    · subst hx
+      simp only [if_true, compare?_null_left]
+      simp only [Bool.not_eq_true] at hc
+      simp [hc]
+    · simp only [hx, if_false]
+
+theorem filterHolds_cmp (s : Schema) (ent : Nat) (r : Row) (f : Filter) (fd : FieldDef)
+    (hfd : fieldDef s ent f.fld = some fd) (h : f.isParam = true ∨ f.value ≠ .null) :
+    filterHolds D s ent r f =
+      compare? f.op (if readX s ent r f.onAlias f.fld = .null then fd.dflt.getD .null
+                     else readX s ent r f.onAlias f.fld) f.value := by
+  rw [filterHolds_eq s ent r f fd hfd]
+  cases hv : f.value with
+  | null =>
+    rcases h with h | h
+    · simp [h, compare?_null_right]
+    · exact absurd hv h
+  | bool b => rfl
+  | int i => rfl
+  | str t => rfl
+
+theorem filterHolds_nullLit (s : Schema) (ent : Nat) (r : Row) (f : Filter) (fd : FieldDef)
+    (hfd : fieldDef s ent f.fld = some fd) (hp : f.isParam = false) (hv : f.value = .null) :
+    filterHolds D s ent r f =
+      (match f.op with
+       | .eq => decide (readX s ent r f.onAlias f.fld = .null)
+       | .ne => decide (readX s ent r f.onAlias f.fld ≠ .null)
+       | _ => false) := by
+  rw [filterHolds_eq s ent r f fd hfd, hv]
+  simp [hp]
+
+/-- the value position of a filter: the literal `null` (with `is` / `is not`), or a bound / written value -/
+theorem filterValue_spec (env : String → Val) (ps : Binds) (var : String) (f : Filter)
+    (henv : f.isParam = true → env var = f.value) :
+    ∃ e, (filterValue ps var f).1 = ps ++ e ∧
+      ((f.isParam = false ∧ f.value = .null ∧ (filterValue ps var f).2.2 = nullOp f.op ∧
+          (filterValue ps var f).2.1 = .null) ∨
+       ((f.isParam = true ∨ f.value ≠ .null) ∧ (filterValue ps var f).2.2 = cmpOp f.op ∧
+          Stable env (filterValue ps var f).1 (filterValue ps var f).2.1 (SqlVal.ofScalar f.value))) := by
+  unfold filterValue
+  cases hp : f.isParam with
+  | true =>
+    obtain ⟨e, he, hst⟩ := addParam_var_spec env ps var
+    refine ⟨e, by simpa using he, Or.inr ⟨Or.inl rfl, rfl, ?_⟩⟩
+    rw [← henv hp]
+    simpa using hst
+  | false =>
+    simp only [Bool.false_eq_true, if_false]
+    cases hv : f.value with
+    | null => exact ⟨[], by simp, Or.inl ⟨by simp, by simp, by simp, by simp⟩⟩
+    | bool b =>
+      obtain ⟨e, he, hst⟩ := litOperand_spec env ps (.bool b)
+      exact ⟨e, he, Or.inr ⟨Or.inr (by simp), rfl, hst⟩⟩
+    | int i =>
+      obtain ⟨e, he, hst⟩ := litOperand_spec env ps (.int i)
+      exact ⟨e, he, Or.inr ⟨Or.inr (by simp), rfl, hst⟩⟩
+    | str t =>
+      obtain ⟨e, he, hst⟩ := litOperand_spec env ps (.str t)
+      exact ⟨e, he, Or.inr ⟨Or.inr (by simp), rfl, hst⟩⟩
+
+theorem defaultOf_eq {s : Schema} {ent fld : Nat} {fd : FieldDef} (h : fieldDef s ent fld = some fd) :
+    defaultOf s ent fld = fd.dflt := by simp [defaultOf, h]
+
+/-- **one filter**: its SQL condition is true for a stored row iff the evaluator's filter holds for the row -/
+theorem filterCond_spec (env : String → Val) (nm : Names) (s : Schema) (ent : Nat)
+    (hinj : ∀ a b, nm.fieldShort ent a = nm.fieldShort ent b → a = b)
+    (sels : List Sel) (hdist : distinctKeys (sels.map Sel.key) = true)
+    (ps : Binds) (var : String) (f : Filter)
+    (hf : fieldOk s ent f.fld = true) (ha : (!f.onAlias || sels.any (isScalarSel f.name f.fld)) = true)
+    (hnull : (f.isParam || f.value != .null || defaultOf s ent f.fld == none) = true)
+    (henv : f.isParam = true → env var = f.value) :
+    ∃ e, (filterCond nm s ent ps var f).1 = ps ++ e ∧
+      ∀ (more : Binds) (r : Row), r.ent = ent →
+        (cond3 (bindVal env ((filterCond nm s ent ps var f).1 ++ more)) (encodeRow nm r) (sels.map (projSpec s r))
+            (filterCond nm s ent ps var f).2 = some true ↔ filterHolds D s ent r f = true) := by
+  obtain ⟨fd, hfd, _, hdn⟩ := fieldOk_def hf
+  obtain ⟨e1, he1, hval⟩ := filterValue_spec env ps var f henv
+  have hlhs : ∀ r : Row, r.ent = ent →
+      lhsVal (encodeRow nm r) (sels.map (projSpec s r)) (filterLhs nm ent f) =
+        SqlVal.ofScalar (readX s ent r f.onAlias f.fld) :=
+    fun r hr => lhsVal_read nm s ent hinj sels hdist r hr f.onAlias f.name f.fld hf ha
+  rcases hval with ⟨hp, hv, hop, hrhs⟩ | ⟨hpv, hop, hst⟩
+  · -- the literal `null`: no default, `is` / `is not`
+    have hno : defaultOf s ent f.fld = none := by
+      simpa [hp, hv] using hnull
+    refine ⟨e1, by simp only [filterCond, hno]; exact he1, ?_⟩
+    intro more r hr
+    simp only [filterCond, hno, cond3, atom3, hop, hrhs, operand, hlhs r hr]
+    rw [filterHolds_nullLit s ent r f fd hfd hp hv]
+    cases f.op <;> simp [nullOp, cmpOp, cmp3, ofScalar_null_iff]
+  · cases hdv : defaultOf s ent f.fld with
+    | none =>
+      refine ⟨e1, by simp only [filterCond, hdv]; exact he1, ?_⟩
+      intro more r hr
+      have hd : fd.dflt = none := by rw [← defaultOf_eq hfd]; exact hdv
+      simp only [filterCond, hdv, cond3, hop]
+      rw [atom_true_iff _ _ _ _ _ f.op _ f.value (hlhs r hr) (hst more), filterHolds_cmp s ent r f fd hfd hpv, hd]
+      by_cases hx : readX s ent r f.onAlias f.fld = .null
+      · simp [hx]
+      · simp [hx]
+    | some dv =>
+      obtain ⟨e2, he2, hstd⟩ := litOperand_spec env (filterValue ps var f).1 dv
+      refine ⟨e1 ++ e2, by simp only [filterCond, hdv]; rw [he2, he1, List.append_assoc], ?_⟩
+      intro more r hr
+      have hd : fd.dflt = some dv := by rw [← defaultOf_eq hfd]; exact hdv
+      simp only [filterCond, hdv, hop]
+      have hr' : operand (bindVal env ((litOperand (filterValue ps var f).1 dv).1 ++ more)) (filterValue ps var f).2.1 =
+          SqlVal.ofScalar f.value := by
+        rw [he2, List.append_assoc]; exact hst _
+      rw [caseDefault_true_iff _ _ _ _ _ _ f.op _ f.value dv (hlhs r hr) hr' (hstd more),
+        filterHolds_cmp s ent r f fd hfd hpv, hd]
+      rfl
+
+/-- what `inFragment` asks of a filter, for the selections `sels` -/
+def FilterWf (s : Schema) (ent : Nat) (sels : List Sel) (f : Filter) : Prop :=
+  fieldOk s ent f.fld = true ∧ (!f.onAlias || sels.any (isScalarSel f.name f.fld)) = true ∧
+    (f.isParam || f.value != .null || defaultOf s ent f.fld == none) = true
+
+/-- **all filters**: the AND-ed conditions are all true for a stored row iff every filter holds for the row -/
+theorem filtersLoop_spec (env : String → Val) (nm : Names) (s : Schema) (ent : Nat)
+    (hinj : ∀ a b, nm.fieldShort ent a = nm.fieldShort ent b → a = b)
+    (sels : List Sel) (hdist : distinctKeys (sels.map Sel.key) = true) (vn : Nat → String) :
+    ∀ (fs : List Filter) (ps : Binds) (i : Nat),
+      (∀ f ∈ fs, FilterWf s ent sels f) →
+      (∀ j f, fs[j]? = some f → f.isParam = true → env (vn (i + j)) = f.value) →
+      ∃ e, (filtersLoop nm s ent vn ps i fs).1 = ps ++ e ∧
+        ∀ (more : Binds) (r : Row), r.ent = ent →
+          ((∀ c ∈ (filtersLoop nm s ent vn ps i fs).2,
+              cond3 (bindVal env ((filtersLoop nm s ent vn ps i fs).1 ++ more)) (encodeRow nm r)
+                (sels.map (projSpec s r)) c = some true) ↔
+            ∀ f ∈ fs, filterHolds D s ent r f = true) := by
+  intro fs
+  induction fs with
+  | nil => intro ps i _ _; exact ⟨[], by simp [filtersLoop], fun _ _ _ => by simp [filtersLoop]⟩
+  | cons f rest ih =>
+    intro ps i hwf henv
+    obtain ⟨hf, ha, hn⟩ := hwf f (by simp)
+    obtain ⟨e1, he1, h1⟩ := filterCond_spec env nm s ent hinj sels hdist ps (vn i) f hf ha hn
+      (fun hp => by have := henv 0 f (by simp) hp; simpa using this)
+    obtain ⟨e2, he2, h2⟩ := ih (filterCond nm s ent ps (vn i) f).1 (i + 1)
+      (fun g hg => hwf g (by simp [hg]))
+      (fun j g hj hp => by
+        have := henv (j + 1) g (by simpa using hj) hp
+        rw [← this]; congr 2; omega)
+    refine ⟨e1 ++ e2, by simp only [filtersLoop]; rw [he2, he1, List.append_assoc], ?_⟩
+    intro more r hr
+    simp only [filtersLoop, List.mem_cons, forall_eq_or_imp]
+    have hhead := h1 (e2 ++ more) r hr
+    rw [← List.append_assoc, ← he2] at hhead
+    rw [hhead, h2 more r hr]
+
+/-! ## Order keys and cursors -/
+
+def OrderWf (s : Schema) (ent : Nat) (sels : List Sel) (o : Order) : Prop :=
+  fieldOk s ent o.fld = true ∧ (!o.onAlias || sels.any (isScalarSel o.name o.fld)) = true
+
+theorem keyOf_eq_readX (s : Schema) (ent : Nat) (r : Row) (o : Order) (h : fieldOk s ent o.fld = true) :
+    keyOf D s ent r o = readX s ent r o.onAlias o.fld := by
+  obtain ⟨fd, hfd, _, _⟩ := fieldOk_def h
+  simp only [keyOf, hfd, readX, ordered, D, Defects.asImplemented]
+  cases o.onAlias <;> simp
+
+/-- the SQL value of an order term on a stored row is the evaluator's order key -/
+theorem lhsVal_order (nm : Names) (s : Schema) (ent : Nat)
+    (hinj : ∀ a b, nm.fieldShort ent a = nm.fieldShort ent b → a = b)
+    (sels : List Sel) (hdist : distinctKeys (sels.map Sel.key) = true)
+    (r : Row) (hr : r.ent = ent) (o : Order) (ho : OrderWf s ent sels o) :
+    lhsVal (encodeRow nm r) (sels.map (projSpec s r)) (orderLhs nm ent o) = SqlVal.ofScalar (keyOf D s ent r o) := by
+  rw [keyOf_eq_readX s ent r o ho.1]
+  exact lhsVal_read nm s ent hinj sels hdist r hr o.onAlias o.name o.fld ho.1 ho.2
+
+theorem all3_nil : all3 [] = some true := rfl
+theorem all3_cons_true (x : Option Bool) (l : List (Option Bool)) :
+    all3 (x :: l) = some true ↔ x = some true ∧ all3 l = some true := by
+  show and3 x (all3 l) = some true ↔ _
+  cases x with
+  | none => cases h : all3 l with
+    | none => simp [and3]
+    | some b => cases b <;> simp [and3]
+  | some a => cases a <;> cases h : all3 l with
+    | none => simp [and3]
+    | some b => cases b <;> simp [and3]
+
+theorem all3_true_iff (l : List (Option Bool)) : all3 l = some true ↔ ∀ x ∈ l, x = some true := by
+  induction l with
+  | nil => simp [all3_nil]
+  | cons x t ih => rw [all3_cons_true, ih]; simp
+
+theorem any3_cons_true (x : Option Bool) (l : List (Option Bool)) :
+    any3 (x :: l) = some true ↔ x = some true ∨ any3 l = some true := by
+  show or3 x (any3 l) = some true ↔ _
+  cases x with
+  | none => cases h : any3 l with
+    | none => simp [or3]
+    | some b => cases b <;> simp [or3]
+  | some a => cases a <;> cases h : any3 l with
+    | none => simp [or3]
+    | some b => cases b <;> simp [or3]
+
+theorem any3_true_iff (l : List (Option Bool)) : any3 l = some true ↔ ∃ x ∈ l, x = some true := by
+  induction l with
+  | nil => simp [any3]
+  | cons x t ih =>
+    rw [any3_cons_true, ih]
+    constructor
+    · rintro (h | ⟨y, hy, hy'⟩)
+      · exact ⟨x, by simp, h⟩
+      · exact ⟨y, by simp [hy], hy'⟩
+    · rintro ⟨y, hy, hy'⟩
+      rcases List.mem_cons.mp hy with h | h
+      · left; rw [← h]; exact hy'
+      · right; exact ⟨y, h, hy'⟩
+
+/-- the strict comparison of a cursor, as an operator of the query language -/
+def pagingCmp (before desc : Bool) : Cmp :=
+  if desc then (if before then .gt else .lt) else (if before then .lt else .gt)
+
+theorem pagingOp_eq (before desc : Bool) : pagingOp before desc = cmpOp (pagingCmp before desc) := by
+  cases before <;> cases desc <;> rfl
+
+/-- one alternative of a cursor on the keys `K`: equal on all keys but the last, strictly beyond on the last -/
+def altHolds (before : Bool) (K : Order → Val) : List (Order × Val) → Bool
+  | [] => true
+  | [(o, c)] => compare? (pagingCmp before o.desc) (K o) c
+  | (o, c) :: rest => compare? .eq (K o) c && altHolds before K rest
+
+theorem altHolds_cons_ne (before : Bool) (K : Order → Val) (o : Order) (c : Val) (p : List (Order × Val)) (h : p ≠ []) :
+    altHolds before K ((o, c) :: p) = (compare? .eq (K o) c && altHolds before K p) := by
+  cases p with
+  | nil => exact absurd rfl h
+  | cons x t => rfl
+
+theorem pagingAlt_spec (env : String → Val) (nm : Names) (s : Schema) (ent : Nat)
+    (hinj : ∀ a b, nm.fieldShort ent a = nm.fieldShort ent b → a = b)
+    (sels : List Sel) (hdist : distinctKeys (sels.map Sel.key) = true) (before : Bool) :
+    ∀ (p : List (Order × Val)) (ps : Binds), (∀ x ∈ p, OrderWf s ent sels x.1) →
+      ∃ e, (pagingAlt nm ent before ps p).1 = ps ++ e ∧
+        ∀ (more : Binds) (r : Row), r.ent = ent →
+          (all3 ((pagingAlt nm ent before ps p).2.map
+              (atom3 (bindVal env ((pagingAlt nm ent before ps p).1 ++ more)) (encodeRow nm r) (sels.map (projSpec s r)))) =
+              some true ↔ altHolds before (keyOf D s ent r) p = true) := by
+  intro p
+  induction p with
+  | nil => intro ps _; exact ⟨[], by simp [pagingAlt], fun _ _ _ => by simp [pagingAlt, altHolds, all3_nil]⟩
+  | cons x rest ih =>
+    intro ps hwf
+    obtain ⟨o, c⟩ := x
+    have ho : OrderWf s ent sels o := hwf (o, c) (by simp)
+    obtain ⟨e1, he1, hst⟩ := litOperand_spec env ps c
+    cases rest with
+    | nil =>
+      refine ⟨e1, by simp only [pagingAlt]; exact he1, ?_⟩
+      intro more r hr
+      simp only [pagingAlt, List.map_cons, List.map_nil, altHolds, pagingOp_eq]
+      rw [all3_cons_true, atom_true_iff _ _ _ _ _ _ _ c (lhsVal_order nm s ent hinj sels hdist r hr o ho) (hst more)]
+      simp [all3_nil]
+    | cons y rest' =>
+      obtain ⟨e2, he2, h2⟩ := ih (litOperand ps c).1 (fun z hz => hwf z (by simp [hz]))
+      refine ⟨e1 ++ e2, by simp only [pagingAlt]; rw [he2, he1, List.append_assoc], ?_⟩
+      intro more r hr
+      simp only [pagingAlt, List.map_cons, altHolds, Bool.and_eq_true]
+      rw [all3_cons_true]
+      have hrhs : operand (bindVal env ((pagingAlt nm ent before (litOperand ps c).1 (y :: rest')).1 ++ more))
+          (litOperand ps c).2 = SqlVal.ofScalar c := by
+        rw [he2, List.append_assoc]; exact hst _
+      have hA := atom_true_iff _ _ _ _ _ .eq _ c (lhsVal_order nm s ent hinj sels hdist r hr o ho) hrhs
+      simp only [cmpOp] at hA
+      rw [hA]
+      rw [h2 more r hr]
+
+theorem pagingLoop_spec (env : String → Val) (nm : Names) (s : Schema) (ent : Nat)
+    (hinj : ∀ a b, nm.fieldShort ent a = nm.fieldShort ent b → a = b)
+    (sels : List Sel) (hdist : distinctKeys (sels.map Sel.key) = true) (before : Bool) :
+    ∀ (pl : List (List (Order × Val))) (ps : Binds), (∀ p ∈ pl, ∀ x ∈ p, OrderWf s ent sels x.1) →
+      ∃ e, (pagingLoop nm ent before ps pl).1 = ps ++ e ∧
+        ∀ (more : Binds) (r : Row), r.ent = ent →
+          (paging3 (bindVal env ((pagingLoop nm ent before ps pl).1 ++ more)) (encodeRow nm r) (sels.map (projSpec s r))
+              (pagingLoop nm ent before ps pl).2 = some true ↔
+            pl.any (altHolds before (keyOf D s ent r)) = true) := by
+  intro pl
+  induction pl with
+  | nil => intro ps _; exact ⟨[], by simp [pagingLoop], fun _ _ _ => by simp [pagingLoop, paging3, any3]⟩
+  | cons p rest ih =>
+    intro ps hwf
+    obtain ⟨e1, he1, h1⟩ := pagingAlt_spec env nm s ent hinj sels hdist before p ps (hwf p (by simp))
+    obtain ⟨e2, he2, h2⟩ := ih (pagingAlt nm ent before ps p).1 (fun q hq => hwf q (by simp [hq]))
+    refine ⟨e1 ++ e2, by simp only [pagingLoop]; rw [he2, he1, List.append_assoc], ?_⟩
+    intro more r hr
+    simp only [pagingLoop, paging3, List.map_cons, List.any_cons, Bool.or_eq_true]
+    rw [any3_cons_true]
+    have hhead := h1 (e2 ++ more) r hr
+    rw [← List.append_assoc, ← he2] at hhead
+    rw [hhead]
+    have := h2 more r hr
+    simp only [paging3] at this
+    rw [this]
+
+theorem inits1_ne_nil {α : Type} : ∀ (l : List α), ∀ p ∈ inits1 l, p ≠ [] := by
+  intro l
+  induction l with
+  | nil => intro p hp; simp [inits1] at hp
+  | cons a t _ =>
+    intro p hp
+    simp only [inits1, List.mem_cons, List.mem_map] at hp
+    rcases hp with hp | ⟨q, _, hq⟩
+    · rw [hp]; simp
+    · rw [← hq]; simp
+
+theorem inits1_mem {α : Type} : ∀ (l : List α), ∀ p ∈ inits1 l, ∀ x ∈ p, x ∈ l := by
+  intro l
+  induction l with
+  | nil => intro p hp; simp [inits1] at hp
+  | cons a t ih =>
+    intro p hp x hx
+    simp only [inits1, List.mem_cons, List.mem_map] at hp
+    rcases hp with hp | ⟨q, hq1, hq⟩
+    · rw [hp] at hx; simp at hx; simp [hx]
+    · rw [← hq] at hx
+      rcases List.mem_cons.mp hx with h | h
+      · simp [h]
+      · exact List.mem_cons_of_mem _ (ih q hq1 x h)
+
+theorem any_inits1_cons (before : Bool) (K : Order → Val) (o : Order) (c : Val) (rest : List (Order × Val)) :
+    (inits1 ((o, c) :: rest)).any (altHolds before K) =
+      (compare? (pagingCmp before o.desc) (K o) c ||
+        (compare? .eq (K o) c && (inits1 rest).any (altHolds before K))) := by
+  simp only [inits1, List.any_cons, altHolds, List.any_map]
+  congr 1
+  have : ∀ l : List (List (Order × Val)), (∀ p ∈ l, p ≠ []) →
+      l.any (altHolds before K ∘ fun x => (o, c) :: x) = (compare? .eq (K o) c && l.any (altHolds before K)) := by
+    intro l
+    induction l with
+    | nil => intro _; simp
+    | cons p t ih =>
+      intro h
+      simp only [List.any_cons, Function.comp, altHolds_cons_ne before K o c p (h p (by simp))]
+      have := ih (fun q hq => h q (by simp [hq]))
+      rw [this, Bool.and_or_distrib_left]
+  exact this _ (inits1_ne_nil rest)
+
+/-- the OR of the alternatives is the evaluator's `after` cursor -/
+theorem any_alts_after (K : Order → Val) : ∀ (os : List Order) (cs : List Val),
+    (inits1 (os.zip cs)).any (altHolds false K) = afterCursor D os (os.map K) cs := by
+  intro os
+  induction os with
+  | nil => intro cs; simp [inits1, afterCursor]
+  | cons o os ih =>
+    intro cs
+    cases cs with
+    | nil => simp [inits1, afterCursor]
+    | cons c cs =>
+      rw [List.zip_cons_cons, any_inits1_cons, ih cs]
+      simp only [List.map_cons, afterCursor, pagingCmp, D, Defects.asImplemented, Bool.not_true, Bool.false_or]
+      by_cases hn : K o = .null ∨ c = .null
+      · have : ¬ (K o ≠ .null ∧ c ≠ .null) := by rcases hn with h | h <;> simp [h]
+        simp [compare?, hn, this]
+      · have : K o ≠ .null ∧ c ≠ .null := by
+          constructor
+          · intro h; exact hn (Or.inl h)
+          · intro h; exact hn (Or.inr h)
+        cases o.desc <;> simp [compare?, this]
+
+/-- the OR of the alternatives is the evaluator's `before` cursor -/
+theorem any_alts_before (K : Order → Val) : ∀ (os : List Order) (cs : List Val),
+    (inits1 (os.zip cs)).any (altHolds true K) = beforeCursor D os (os.map K) cs := by
+  intro os
+  induction os with
+  | nil => intro cs; simp [inits1, beforeCursor]
+  | cons o os ih =>
+    intro cs
+    cases cs with
+    | nil => simp [inits1, beforeCursor]
+    | cons c cs =>
+      rw [List.zip_cons_cons, any_inits1_cons, ih cs]
+      simp only [List.map_cons, beforeCursor, pagingCmp, D, Defects.asImplemented, Bool.not_true, Bool.false_or]
+      by_cases hn : K o = .null ∨ c = .null
+      · have : ¬ (K o ≠ .null ∧ c ≠ .null) := by rcases hn with h | h <;> simp [h]
+        simp [compare?, hn, this]
+      · have : K o ≠ .null ∧ c ≠ .null := by
+          constructor
+          · intro h; exact hn (Or.inl h)
+          · intro h; exact hn (Or.inr h)
+        cases o.desc <;> simp [compare?, this]
+
+/-! ## ORDER BY and LIMIT -/
+
+theorem keysLt_eq (nm : Names) (ent : Nat) (Ka Kb : Order → Val) : ∀ os : List Order,
+    keysLt (os.map fun o => { lhs := orderLhs nm ent o, desc := o.desc })
+        (os.map fun o => SqlVal.ofScalar (Ka o)) (os.map fun o => SqlVal.ofScalar (Kb o)) =
+      tupleLt os (os.map Ka) (os.map Kb) := by
+  intro os
+  induction os with
+  | nil => rfl
+  | cons o os ih =>
+    simp only [List.map_cons, keysLt, tupleLt, lt_ofScalar, ih]
+    have he : decide (SqlVal.ofScalar (Ka o) = SqlVal.ofScalar (Kb o)) = (Ka o).same (Kb o) := by
+      cases hs : (Ka o).same (Kb o) with
+      | true => exact decide_eq_true ((eq_ofScalar_iff _ _).mpr hs)
+      | false =>
+        apply decide_eq_false
+        intro hc
+        rw [(eq_ofScalar_iff _ _).mp hc] at hs
+        exact absurd hs (by simp)
+    rw [he]
+
+theorem applyLimit_eq {α : Type} (first skip : Nat) (l : List α) :
+    applyLimit (limitOf first skip).1 (limitOf first skip).2 l = limit first skip l := by
+  unfold limitOf applyLimit limit
+  by_cases hs : skip = 0
+  · by_cases hf : first = 0
+    · simp [hs, hf]
+    · have : ¬ ((first : Int) < 0) := by omega
+      simp [hs, hf, this]
+  · by_cases hf : first = 0
+    · simp [hs, hf]
+    · have : ¬ ((first : Int) < 0) := by omega
+      simp [hs, hf, this]
+
+theorem applyLimit_map {α β : Type} (f : α → β) (lim : Option Int) (off : Option Nat) (l : List α) :
+    applyLimit lim off (l.map f) = (applyLimit lim off l).map f := by
+  unfold applyLimit
+  cases lim with
+  | none => simp [List.map_drop]
+  | some n => by_cases h : n < 0 <;> simp [h, List.map_drop, List.map_take]
+
+theorem mem_limit {α : Type} (first skip : Nat) (l : List α) (x : α) (h : x ∈ limit first skip l) : x ∈ l := by
+  unfold limit at h
+  by_cases hf : first = 0
+  · simp only [hf, if_true] at h; exact List.mem_of_mem_drop h
+  · simp only [hf, if_false] at h; exact List.mem_of_mem_drop (List.mem_of_mem_take h)
+
+/-! ## The evaluator on the fragment -/
+
+theorem tupleLe_total (os : List Order) (ka kb : List Val) (h : tupleLe os ka kb = false) : tupleLe os kb ka = true := by
+  simp only [tupleLe, Bool.not_eq_eq_eq_not, Bool.not_false] at h
+  simp only [tupleLe, Bool.not_eq_eq_eq_not, Bool.not_true]
+  exact tupleLt_asymm _ _ _ h
+
+theorem tupleLe_trans (os : List Order) (ka kb kc : List Val)
+    (ha : ka.length = os.length) (hb : kb.length = os.length) (hc : kc.length = os.length)
+    (h1 : tupleLe os ka kb = true) (h2 : tupleLe os kb kc = true) : tupleLe os ka kc = true := by
+  simp only [tupleLe, Bool.not_eq_eq_eq_not, Bool.not_true] at h1 h2 ⊢
+  cases h : tupleLt os kc ka with
+  | false => rfl
+  | true =>
+    rcases tupleLt_negtrans os _ _ kb hc ha hb h with h3 | h3
+    · rw [h2] at h3; exact absurd h3 (by simp)
+    · rw [h1] at h3; exact absurd h3 (by simp)
+
+theorem subPresent_frag (s : Schema) (data : Data) (fuel : Nat) (key : String) (ent : Nat) (r : Row) (sel : Sel)
+    (h : selOk s ent sel = true) : subPresent D s data fuel key r sel = true := by
+  cases sel <;> simp_all [subPresent, selOk]
+
+theorem holds_frag (s : Schema) (data : Data) (fuel : Nat) (key : String) (q : Query) (r : Row) (f : Filter)
+    (hj : f.jpath = none) (ho : f.onRef = false) :
+    holds D s data (fuel + 1) key q r f = filterHolds D s q.ent r f := by
+  simp [holds, hj, ho]
+
+theorem project_frag (s : Schema) (data : Data) (fuel : Nat) (key : String) (q : Query) (r : Row)
+    (hr : r.ent = q.ent) (hs : ∀ sel ∈ q.sels, selOk s q.ent sel = true) :
+    project D s data (fuel + 1) key q r = .obj (q.sels.map (projSpec s r)) := by
+  simp only [project]
+  congr 1
+  apply List.map_congr_left
+  intro sel hsel
+  have hok := hs sel hsel
+  cases sel with
+  | scalar k fld =>
+    obtain ⟨fd, hfd, hk, _⟩ := fieldOk_def (show fieldOk s q.ent fld = true from hok)
+    rw [← hr] at hfd
+    simp only [projSpec, hfd]
+    cases hkind : fd.kind <;> simp_all [scalarKind]
+  | id k => rfl
+  | agg _ _ _ => simp [selOk] at hok
+  | json _ _ _ => simp [selOk] at hok
+  | sub _ _ _ _ => simp [selOk] at hok
+
+/-! ## The statement as a whole -/
+
+theorem inFragment_parts {s : Schema} {q : Query} (h : inFragment s q = true) :
+    (∀ sel ∈ q.sels, selOk s q.ent sel = true) ∧ distinctKeys (q.sels.map Sel.key) = true ∧
+    (∀ f ∈ q.filters, f.jpath = none ∧ f.onRef = false ∧ FilterWf s q.ent q.sels f) ∧
+    (∀ o ∈ q.orders, OrderWf s q.ent q.sels o) ∧
+    (q.after = [] ∨ q.before = []) ∧ q.after.length ≤ q.orders.length ∧ q.before.length ≤ q.orders.length := by
+  simp only [inFragment, Bool.and_eq_true, List.all_eq_true, Bool.or_eq_true, List.isEmpty_iff,
+    decide_eq_true_eq] at h
+  obtain ⟨⟨⟨⟨⟨⟨⟨⟨h1, h2⟩, h3⟩, h4⟩, h5⟩, h6⟩, h7⟩, _⟩, _⟩ := h
+  refine ⟨h1, h2, ?_, ?_, h5, h6, h7⟩
+  · intro f hf
+    have := h3 f hf
+    simp only [filterOk, aliasOk, Bool.and_eq_true, Option.isNone_iff_eq_none, Bool.not_eq_eq_eq_not, Bool.not_true] at this
+    obtain ⟨⟨⟨⟨a, b⟩, c⟩, d⟩, e⟩ := this
+    exact ⟨a, b, c, d, e⟩
+  · intro o ho
+    have := h4 o ho
+    simp only [orderOk, aliasOk, Bool.and_eq_true] at this
+    exact ⟨this.1, this.2⟩
+
+theorem pagingLoop_cons_ne (nm : Names) (ent : Nat) (before : Bool) (ps : Binds) (p : List (Order × Val))
+    (rest : List (List (Order × Val))) : (pagingLoop nm ent before ps (p :: rest)).2.isEmpty = false := by
+  simp [pagingLoop]
+
+/-- the three clauses of the compiled statement on a stored row of the query's entity -/
+theorem compile_parts (env : String → Val) (nm : Names) (s : Schema) (vn : Nat → String) (q : Query)
+    (hfrag : inFragment s q = true)
+    (hfld : ∀ a b, nm.fieldShort q.ent a = nm.fieldShort q.ent b → a = b)
+    (henv : ∀ i f, q.filters[i]? = some f → f.isParam = true → env (vn i) = f.value)
+    (r : Row) (hr : r.ent = q.ent) :
+    valueOf (bindVal env (compile nm s vn q).binds) (compile nm s vn q).proj (encodeRow nm r) = q.sels.map (projSpec s r) ∧
+    ((∀ c ∈ (compile nm s vn q).filters,
+        cond3 (bindVal env (compile nm s vn q).binds) (encodeRow nm r) (q.sels.map (projSpec s r)) c = some true) ↔
+      ∀ f ∈ q.filters, filterHolds D s q.ent r f = true) ∧
+    (((compile nm s vn q).paging.isEmpty = true ∨
+        paging3 (bindVal env (compile nm s vn q).binds) (encodeRow nm r) (q.sels.map (projSpec s r))
+          (compile nm s vn q).paging = some true) ↔
+      cursorHolds D q.orders q.after q.before (keysOf D s q.ent q.orders r) = true) := by
+  obtain ⟨hsels, hdist, hfil, hord, hcur, hla, hlb⟩ := inFragment_parts hfrag
+  obtain ⟨e1, he1, hproj⟩ := projLoop_spec env nm s q.ent hfld q.sels [] hsels
+  obtain ⟨e2, he2, hflt⟩ := filtersLoop_spec env nm s q.ent hfld q.sels hdist vn q.filters
+    (projLoop nm s q.ent [] q.sels).1 0 (fun f hf => (hfil f hf).2.2)
+    (fun j f hj hp => by have := henv j f hj hp; simpa using this)
+  -- the paging alternatives
+  have hwfp : ∀ cs : List Val, ∀ p ∈ inits1 (q.orders.zip cs), ∀ x ∈ p, OrderWf s q.ent q.sels x.1 := by
+    intro cs p hp x hx
+    have hxz := inits1_mem _ p hp x hx
+    obtain ⟨o, c⟩ := x
+    exact hord o (List.of_mem_zip hxz).1
+  obtain ⟨e3, he3, hpg⟩ := pagingLoop_spec env nm s q.ent hfld q.sels hdist (!q.before.isEmpty)
+    (inits1 (q.orders.zip (if (!q.before.isEmpty) = true then q.before else q.after)))
+    (filtersLoop nm s q.ent vn (projLoop nm s q.ent [] q.sels).1 0 q.filters).1 (hwfp _)
+  have hbinds : (compile nm s vn q).binds =
+      (pagingLoop nm q.ent (!q.before.isEmpty) (filtersLoop nm s q.ent vn (projLoop nm s q.ent [] q.sels).1 0 q.filters).1
+        (inits1 (q.orders.zip (if (!q.before.isEmpty) = true then q.before else q.after)))).1 := rfl
+  refine ⟨?_, ?_, ?_⟩
+  · have := hproj (e2 ++ e3) r hr
+    rw [hbinds, he3, he2, List.append_assoc]
+    exact this
+  · have := hflt e3 r hr
+    rw [hbinds, he3]
+    exact this
+  · have hp := hpg [] r hr
+    rw [List.append_nil] at hp
+    have hpaging : (compile nm s vn q).paging =
+        (pagingLoop nm q.ent (!q.before.isEmpty) (filtersLoop nm s q.ent vn (projLoop nm s q.ent [] q.sels).1 0 q.filters).1
+          (inits1 (q.orders.zip (if (!q.before.isEmpty) = true then q.before else q.after)))).2 := rfl
+    rw [hpaging, hbinds, hp]
+    have hkeys : keysOf D s q.ent q.orders r = q.orders.map (keyOf D s q.ent r) := rfl
+    rw [hkeys]
+    cases hb : q.before with
+    | nil =>
+      cases ha : q.after with
+      | nil =>
+        simp [inits1, pagingLoop, cursorHolds]
+      | cons a as =>
+        cases hos : q.orders with
+        | nil => rw [ha, hos] at hla; simp at hla
+        | cons o os =>
+          have hne : (pagingLoop nm q.ent (!([] : List Val).isEmpty)
+              (filtersLoop nm s q.ent vn (projLoop nm s q.ent [] q.sels).1 0 q.filters).1
+              (inits1 ((o :: os).zip (if (!([] : List Val).isEmpty) = true then [] else a :: as)))).2.isEmpty = false := by
+            simp only [List.isEmpty_nil, Bool.not_true, Bool.false_eq_true, if_false, List.zip_cons_cons, inits1]
+            exact pagingLoop_cons_ne ..
+          rw [hne]
+          simp only [Bool.false_eq_true, false_or, List.isEmpty_nil, Bool.not_true, if_false, cursorHolds,
+            List.isEmpty_cons, Bool.false_or, Bool.true_or, Bool.and_true]
+          rw [any_alts_after]
+    | cons b bs =>
+      have ha : q.after = [] := by
+        rcases hcur with h | h
+        · exact h
+        · rw [hb] at h; exact absurd h (by simp)
+      cases hos : q.orders with
+      | nil => rw [hb, hos] at hlb; simp at hlb
+      | cons o os =>
+        have hne : (pagingLoop nm q.ent (!(b :: bs).isEmpty)
+            (filtersLoop nm s q.ent vn (projLoop nm s q.ent [] q.sels).1 0 q.filters).1
+            (inits1 ((o :: os).zip (if (!(b :: bs).isEmpty) = true then b :: bs else q.after)))).2.isEmpty = false := by
+          simp only [List.isEmpty_cons, Bool.not_false, if_true, List.zip_cons_cons, inits1]
+          exact pagingLoop_cons_ne ..
+        rw [hne]
+        simp only [Bool.false_eq_true, false_or, List.isEmpty_cons, Bool.not_false, if_true, cursorHolds, ha,
+          List.isEmpty_nil, Bool.true_or, Bool.true_and, Bool.false_or]
+        rw [any_alts_before]
+
+theorem whereHolds_iff (st : SqlSelect) (bv : Nat → SqlVal) (row : NodeRow) :
+    whereHolds st bv row = true ↔
+      row.entity = st.entity ∧
+      (∀ c ∈ st.filters, cond3 bv row (valueOf bv st.proj row) c = some true) ∧
+      (st.paging.isEmpty = true ∨ paging3 bv row (valueOf bv st.proj row) st.paging = some true) := by
+  unfold whereHolds
+  simp only [decide_eq_true_eq]
+  rw [all3_true_iff]
+  constructor
+  · intro h
+    refine ⟨?_, ?_, ?_⟩
+    · have := h (some (decide (row.entity = st.entity))) (by simp)
+      simpa using this
+    · intro c hc
+      exact h _ (by simp only [List.mem_append, List.mem_map]; exact Or.inl (Or.inr ⟨c, hc, rfl⟩))
+    · cases hp : st.paging.isEmpty with
+      | true => exact Or.inl rfl
+      | false =>
+        right
+        exact h _ (by simp [hp])
+  · rintro ⟨h1, h2, h3⟩ x hx
+    simp only [List.mem_append, List.mem_cons, List.not_mem_nil, or_false, List.mem_map] at hx
+    rcases hx with (hx | ⟨c, hc, hx⟩) | hx
+    · rw [hx]; simp [h1]
+    · rw [← hx]; exact h2 c hc
+    · cases hp : st.paging.isEmpty with
+      | true => simp [hp] at hx
+      | false =>
+        simp only [hp, Bool.false_eq_true, if_false, List.mem_cons, List.not_mem_nil, or_false] at hx
+        rcases h3 with h3 | h3
+        · rw [hp] at h3; exact absurd h3 (by simp)
+        · rw [hx]; exact h3
+
+/-- **WHERE**: the compiled condition keeps exactly the rows of the entity that satisfy every filter and the cursor -/
+theorem whereHolds_spec (env : String → Val) (nm : Names) (s : Schema) (vn : Nat → String) (q : Query)
+    (hfrag : inFragment s q = true)
+    (hent : ∀ a b, nm.entShort a = nm.entShort b → a = b)
+    (hfld : ∀ a b, nm.fieldShort q.ent a = nm.fieldShort q.ent b → a = b)
+    (henv : ∀ i f, q.filters[i]? = some f → f.isParam = true → env (vn i) = f.value)
+    (r : Row) :
+    whereHolds (compile nm s vn q) (bindVal env (compile nm s vn q).binds) (encodeRow nm r) =
+      (decide (r.ent = q.ent) && q.filters.all (filterHolds D s q.ent r) &&
+        cursorHolds D q.orders q.after q.before (keysOf D s q.ent q.orders r)) := by
+  rw [Bool.eq_iff_iff, whereHolds_iff]
+  simp only [Bool.and_eq_true, decide_eq_true_eq, List.all_eq_true]
+  have hentity : (encodeRow nm r).entity = (compile nm s vn q).entity ↔ r.ent = q.ent := by
+    show nm.entShort r.ent = nm.entShort q.ent ↔ _
+    exact ⟨hent _ _, fun h => by rw [h]⟩
+  constructor
+  · rintro ⟨h1, h2, h3⟩
+    have hr := hentity.mp h1
+    obtain ⟨hv, hf, hp⟩ := compile_parts env nm s vn q hfrag hfld henv r hr
+    rw [hv] at h2 h3
+    exact ⟨⟨hr, hf.mp h2⟩, hp.mp h3⟩
+  · rintro ⟨⟨hr, h2⟩, h3⟩
+    obtain ⟨hv, hf, hp⟩ := compile_parts env nm s vn q hfrag hfld henv r hr
+    rw [hv]
+    exact ⟨hentity.mpr hr, hf.mpr h2, hp.mpr h3⟩
+
+/-- **ORDER BY**: two stored rows of the entity compare as the evaluator's key tuples do -/
+theorem orderKeys_spec (env : String → Val) (nm : Names) (s : Schema) (vn : Nat → String) (q : Query)
+    (hfrag : inFragment s q = true)
+    (hfld : ∀ a b, nm.fieldShort q.ent a = nm.fieldShort q.ent b → a = b)
+    (henv : ∀ i f, q.filters[i]? = some f → f.isParam = true → env (vn i) = f.value)
+    (r : Row) (hr : r.ent = q.ent) :
+    orderKeys (compile nm s vn q) (bindVal env (compile nm s vn q).binds) (encodeRow nm r) =
+      q.orders.map fun o => SqlVal.ofScalar (keyOf D s q.ent r o) := by
+  obtain ⟨_, hdist, _, hord, _, _, _⟩ := inFragment_parts hfrag
+  obtain ⟨hv, _, _⟩ := compile_parts env nm s vn q hfrag hfld henv r hr
+  unfold orderKeys
+  rw [hv]
+  show (q.orders.map fun o => ({ lhs := orderLhs nm q.ent o, desc := o.desc } : OrderTerm)).map _ = _
+  rw [List.map_map]
+  apply List.map_congr_left
+  intro o ho
+  exact lhsVal_order nm s q.ent hfld q.sels hdist r hr o (hord o ho)
+
+/-- **the compiled statement computes the evaluator's result** (see `C05_compile_correct`) -/
+theorem compile_correct (nm : Names) (s : Schema) (data : Data) (q : Query) (vn : Nat → String) (env : String → Val)
+    (fuel : Nat) (rootKey : String)
+    (hfrag : inFragment s q = true)
+    (hent : ∀ a b, nm.entShort a = nm.entShort b → a = b)
+    (hfld : ∀ a b, nm.fieldShort q.ent a = nm.fieldShort q.ent b → a = b)
+    (henv : ∀ i f, q.filters[i]? = some f → f.isParam = true → env (vn i) = f.value) :
+    run (encode nm data) (compile nm s vn q) env = eval D s data (fuel + 2) rootKey q := by
+  obtain ⟨hsels, hdist, hfil, hord, hcur, hla, hlb⟩ := inFragment_parts hfrag
+  -- the evaluator's side
+  have hagg : q.isAggregate = false := by
+    simp only [Query.isAggregate, List.any_eq_false]
+    intro sel hsel
+    have := hsels sel hsel
+    cases sel <;> simp_all [Sel.isAgg, selOk]
+  let keep : Row → Bool := fun r =>
+    decide (r.ent = q.ent) && q.filters.all (filterHolds D s q.ent r) &&
+      cursorHolds D q.orders q.after q.before (keysOf D s q.ent q.orders r)
+  let le : Row → Row → Bool := fun a b =>
+    tupleLe q.orders (keysOf D s q.ent q.orders a) (keysOf D s q.ent q.orders b)
+  have hrows : evalRows D s data (fuel + 2) rootKey q data true =
+      limit q.first q.skip (sortBy le (data.filter keep)) := by
+    simp only [evalRows, if_true]
+    congr 1
+    rw [filter_sortBy le (fun a b h => tupleLe_total _ _ _ h)
+      (fun a b c h1 h2 => tupleLe_trans _ _ _ _ (keysOf_length ..) (keysOf_length ..) (keysOf_length ..) h1 h2),
+      List.filter_filter]
+    congr 1
+    apply List.filter_congr
+    intro r _
+    have h1 : (q.sels.all fun sel => subPresent D s data (fuel + 1) rootKey r sel) = true :=
+      List.all_eq_true.mpr fun sel hsel => subPresent_frag s data _ rootKey q.ent r sel (hsels sel hsel)
+    have h2 : q.filters.all (holds D s data (fuel + 1) rootKey q r) = q.filters.all (filterHolds D s q.ent r) := by
+      rw [Bool.eq_iff_iff]
+      simp only [List.all_eq_true]
+      constructor
+      · intro h f hf
+        rw [← holds_frag s data fuel rootKey q r f (hfil f hf).1 (hfil f hf).2.1]; exact h f hf
+      · intro h f hf
+        rw [holds_frag s data fuel rootKey q r f (hfil f hf).1 (hfil f hf).2.1]; exact h f hf
+    simp only [keep, h1, h2, Bool.and_true]
+    rw [Bool.and_comm]
+  have heval : eval D s data (fuel + 2) rootKey q =
+      (limit q.first q.skip (sortBy le (data.filter keep))).map (project D s data (fuel + 1) rootKey q) := by
+    simp only [eval, hagg, Bool.false_eq_true, if_false, evalList]
+    rw [hrows]
+  rw [heval]
+  -- the statement's side
+  show (applyLimit (compile nm s vn q).limit (compile nm s vn q).offset
+      (sortBy (fun a b => !keysLt (compile nm s vn q).order
+          (orderKeys (compile nm s vn q) (bindVal env (compile nm s vn q).binds) b)
+          (orderKeys (compile nm s vn q) (bindVal env (compile nm s vn q).binds) a))
+        ((data.map (encodeRow nm)).filter (whereHolds (compile nm s vn q) (bindVal env (compile nm s vn q).binds))))).map
+      (fun row => J.obj (valueOf (bindVal env (compile nm s vn q).binds) (compile nm s vn q).proj row)) = _
+  rw [List.filter_map]
+  have hkeep : data.filter ((whereHolds (compile nm s vn q) (bindVal env (compile nm s vn q).binds)) ∘ encodeRow nm) =
+      data.filter keep := by
+    apply List.filter_congr
+    intro r _
+    exact whereHolds_spec env nm s vn q hfrag hent hfld henv r
+  rw [hkeep]
+  have hkeepent : ∀ r ∈ data.filter keep, r.ent = q.ent := by
+    intro r hr
+    have := (List.mem_filter.mp hr).2
+    simp only [keep, Bool.and_eq_true, decide_eq_true_eq] at this
+    exact this.1.1
+  have hsort : sortBy (fun a b => !keysLt (compile nm s vn q).order
+        (orderKeys (compile nm s vn q) (bindVal env (compile nm s vn q).binds) b)
+        (orderKeys (compile nm s vn q) (bindVal env (compile nm s vn q).binds) a))
+      ((data.filter keep).map (encodeRow nm)) = (sortBy le (data.filter keep)).map (encodeRow nm) := by
+    apply sortBy_map
+    intro a ha b hb
+    rw [orderKeys_spec env nm s vn q hfrag hfld henv a (hkeepent a ha),
+      orderKeys_spec env nm s vn q hfrag hfld henv b (hkeepent b hb)]
+    show (!keysLt (q.orders.map fun o => ({ lhs := orderLhs nm q.ent o, desc := o.desc } : OrderTerm)) _ _) = _
+    rw [keysLt_eq]
+    rfl
+  rw [hsort]
+  have hlim : (compile nm s vn q).limit = (limitOf q.first q.skip).1 ∧ (compile nm s vn q).offset = (limitOf q.first q.skip).2 :=
+    ⟨rfl, rfl⟩
+  rw [hlim.1, hlim.2, applyLimit_map, applyLimit_eq, List.map_map]
+  apply List.map_congr_left
+  intro r hr
+  have hrent : r.ent = q.ent :=
+    hkeepent r ((mem_sortBy le r _).mp (mem_limit _ _ _ r hr))
+  obtain ⟨hv, _, _⟩ := compile_parts env nm s vn q hfrag hfld henv r hrent
+  simp only [Function.comp]
+  rw [hv, project_frag s data fuel rootKey q r hrent hsels]
 
 end Discret.SqlCompile
